@@ -45,6 +45,8 @@ Inductive cls :=
 | KSel (f : nat) (e : elt)           (* element in the name space of the f-th configured feature *)
 | KIq (ok : bool)                    (* <iq>; ok: an acceptable bind result (id, type, jid) *)
 | KHandshake | KCompErr              (* component: <handshake/>, element with local name error *)
+| KStreamErr                         (* <stream:error> (ws: <error xmlns=streams>) at the top level: the readers
+                                        that look for it decode the whole element and return it *)
 | KInner                             (* start tag below the top level *)
 | KOther.                            (* anything else, e.g. <stream:error>: every reader fails *)
 
@@ -373,6 +375,7 @@ Fixpoint expect (n : nat) (first ws : bool) : prog (bool * bool) :=
           | Open (KHdr valid addr id) =>
               (if ws then skip n' 0 else Ret tt) ;;;
               guard valid ;;; Ret (addr, id)
+          | Open KStreamErr => skip n' 0 ;;; Fail
           | _ => Fail
           end in
         match t with
@@ -391,6 +394,7 @@ Definition starttls_client (n : nat) : prog outcome :=
     match t with
     | Open (KSel _ EProceed) => skip n 0 ;;; Ret (st_Secure, RSTls)
     | Open (KSel _ ETlsFailure) => skip n 0 ;;; Fail
+    | Open KStreamErr => skip n 0 ;;; Fail
     | _ => Fail
     end).
 
@@ -404,6 +408,7 @@ Definition sasl_decode (n : nat) (allow_challenge : bool) (t : tok) : prog bool 
       if allow_challenge then skip n 0 ;;; guard b64 ;;; Ret false else Fail
   | Open (KSel _ (ESuccess b64)) => skip n 0 ;;; guard b64 ;;; Ret true
   | Open (KSel _ ESaslFailure) => skip n 0 ;;; Fail
+  | Open KStreamErr => skip n 0 ;;; Fail
   | _ => Fail
   end.
 
@@ -444,6 +449,7 @@ Fixpoint sasl_server_loop (n : nat) (selected : bool) : prog unit :=
       Rd (fun t =>
         match t with
         | Open (KSel _ ESaslFailure) => skip n' 0 ;;; Fail
+        | Open KStreamErr => skip n' 0 ;;; Fail
         | Open c =>
             skip n' 0 ;;;
             let continue (sel b64 : bool) : prog unit :=
@@ -471,6 +477,7 @@ Definition bind_client (n : nat) : prog outcome :=
   Rd (fun t =>
     match t with
     | Open (KIq ok) => skip n 0 ;;; guard ok ;;; Ret (st_Ready, RSNone)
+    | Open KStreamErr => skip n 0 ;;; Fail
     | _ => Fail
     end).
 
@@ -481,6 +488,7 @@ Definition bind_server (n : nat) : prog outcome :=
         skip n 0 ;;;
         Call (fun v => match v with VBind _ => wr WBindRes ;;; Ret (st_Ready, RSNone) | _ => Stuck end)
              (fun v => match v with VBind BStanza => wr WBindRes ;;; Fail | _ => Fail end)
+    | Open KStreamErr => skip n 0 ;;; Fail
     | _ => Fail
     end).
 
@@ -495,7 +503,11 @@ Definition custom_client : prog outcome := custom_outcome.
 
 (* The harness's custom features consume their selection element, then answer from the script. *)
 Definition custom_server (n : nat) : prog outcome :=
-  Rd (fun t => match t with Open _ => skip n 0 ;;; custom_outcome | _ => Fail end).
+  Rd (fun t => match t with
+              | Open KStreamErr => skip n 0 ;;; Fail
+              | Open _ => skip n 0 ;;; custom_outcome
+              | _ => Fail
+              end).
 
 Definition negotiate_feature (n : nat) (recv : bool) (f : feature) : prog outcome :=
   match f_kind f, recv with
@@ -681,6 +693,7 @@ Definition features_initiator (n : nat) (cfg : config) (first : bool) : prog out
             else if fl_allowed l =? 0 then Fail
             else init_loop (S (length (fl_cache l))) n cfg l None [] false
         end
+    | Open KStreamErr => skip n 0 ;;; Fail     (* decodeStreamErr *)
     | _ => Fail
     end).
 
